@@ -234,6 +234,26 @@ class Monitor:
         for c in sorted(classes, key=lambda c: c.__name__):
             probes.wrap(c, "receive", pre_rx, post_rx)
 
+        # the dispatch point in front of every receive: shows that payloads for non-running software really arrive at
+        # the node's software manager (where they must be dropped) - keeps the gating monitor from starving silently
+        from primaite.simulator.system.core.software_manager import SoftwareManager
+
+        def pre_dispatch(sm, *a, **k):
+            if not mon.armed or getattr(sm, "node", None) is not mon.T:
+                return
+            port, protocol = k.get("port"), k.get("protocol")
+            payload = k.get("payload")
+            tgt = sm.software.get("nmap") if payload.__class__.__name__ == "PortScanPayload" else sm.port_protocol_mapping.get((port, protocol))
+            cands = [tgt] if tgt is not None else []
+            cands += [x for x in sm.software.values() if port in getattr(x, "listen_on_ports", ()) and x is not tgt]
+            for x in cands:
+                st = getattr(x, "operating_state", None)
+                if st is not None and st.name != R:
+                    mon.cov.inc("payloads_dispatched_towards_nonrunning")
+                    mon.cov.hit("dispatch_cells", f"{x.name}|{st.name}")
+
+        probes.wrap(SoftwareManager, "receive_payload_from_session_manager", pre_dispatch, None)
+
         def pre_send(sm, *a, **k):
             if mon.armed and mon.rx_stack and getattr(sm, "node", None) is mon.T:
                 mon.rx_stack[-1]["sends"] += 1
@@ -802,7 +822,7 @@ class Check:
         "handled payload = receive() returned a true value or sent a payload from inside receive() while the software was not RUNNING at entry",
     ]
     min_monitor = {"fsm_compares": 400000, "state_writes": 20000, "requests_judged": 15000, "payload_ops_while_nonrunning": 1000,
-                   "receive_calls_on_nonrunning": 200, "registry_checks": 30000, "describe_state_checks": 10000, "installs": 200,
+                   "payloads_dispatched_towards_nonrunning": 200, "registry_checks": 30000, "describe_state_checks": 10000, "installs": 200,
                    "uninstalls": 500, "timer_completions_on_expected_tick": 1500, "open_port_checks": 30000, "nonrunning_port_evals": 20000}
     case_timeout = {"quick": 1500, "thorough": 5400}
 
